@@ -261,6 +261,8 @@ class HybridGibbs:
             # Extract samples (Ensure even 1-dimensional samples are 1D arrays)
             if isinstance(sampler.current_point, np.ndarray):
                 self.current_samples[par_name] = sampler.current_point.reshape(-1)
+            elif np.isscalar(sampler.current_point): # e.g. a scalar initial point that has not been replaced yet
+                self.current_samples[par_name] = np.array([sampler.current_point])
             else:
                 self.current_samples[par_name] = sampler.current_point
 
